@@ -727,7 +727,7 @@ pub fn run_c13(ctx: &Ctx, only: Option<&Only>) -> Report {
     }
     let secs = if ctx.tier_thorough { ctx.budget_s } else { 0.0 };
     let mut total = drive(ctx, "timer", 12_000, secs, |id, r| c13_case("timer", id, None, r));
-    c13_zst_sequence(ctx, &mut total);
+    run_case("zst", 0, &mut total, &|_, r: &mut Report| c13_zst_sequence(ctx, r));
     total.floor("zst_sequence_done", 1);
     total.floor("zst_result:Ok", 5);
     for k in ["Ok", "Err(NoTimer)", "Err(CoarseTimer)", "Err(NotMonotonic)", "Err(TinyVariations)", "Err(TooManyStuck)"] {
@@ -944,7 +944,7 @@ fn c15_case(sub: &str, id: u64, ctx: &Ctx, r: &mut Report) {
         }
         // direct collision monitor: distinct inputs must not collide
         "collide" => {
-            let n = ctx.n(1 << 16, 1 << 20) as usize;
+            let n = if ctx.scale < 1.0 { 3_000 } else { ctx.n(1 << 16, 1 << 20) as usize };
             let which = p.below(3);
             let fixed = c15_structured_pool(&mut p);
             let base = p.u64();
@@ -1023,7 +1023,8 @@ fn c15_case(sub: &str, id: u64, ctx: &Ctx, r: &mut Report) {
                 3..=4 => JOp::U64,
                 5 => JOp::Fill(p.below(14) as usize),
                 6 => JOp::Stats(p.chance(1, 2)),
-                7 => JOp::TestTimer,
+                // (test_timer costs about a minute per call under an interpreter)
+                7 if ctx.scale >= 1.0 => JOp::TestTimer,
                 _ => JOp::U32,
             }).collect();
             let need = 400 + ops.iter().map(|o| if *o == JOp::TestTimer { 1700 } else { 60 }).sum::<usize>();
@@ -1089,6 +1090,9 @@ pub fn run_c15(ctx: &Ctx, only: Option<&Only>) -> Report {
     total.floor("affinity_observations", 100_000);
     for m in ["fold_pool", "fold_time", "stir"] {
         total.floor(&format!("collide_inputs:{}", m), 1 << 16);
+    }
+    if ctx.scale < 1.0 {
+        total.note("reduced run: 3000-input collision batches, no test_timer in op_sequences".into());
     }
     total.note("inference: every pool-update step agreed with the affine map read off its 64 basis inputs on all affinity_observations; rank 64 of those maps then means one-to-one on every input consistent with the observations".into());
     total
@@ -1397,7 +1401,7 @@ pub fn run_c16(ctx: &Ctx, only: Option<&Only>) -> Report {
     }
     let secs = if ctx.tier_thorough { ctx.budget_s } else { 0.0 };
     let mut total = drive(ctx, "ledger", 24_000, secs, |id, r| c16_case("ledger", id, r));
-    c16_copy_probe(&mut total);
+    run_case("copy_probe", 0, &mut total, &|_, r: &mut Report| c16_copy_probe(r));
     for k in ["op:test_timer", "test_timer_passed", "timer_fault_recovered", "op:u32", "op:u64", "op:fill", "op:clone", "op:clone_from", "clone_from_into_instance_with_pending_half", "clone_from_source_with_pending_half",
               "pending_half_served", "clone_while_half_pending", "fresh_collection_on_clone"] {
         total.floor(k, 100);
